@@ -238,6 +238,31 @@ static long resolve_idx(long code, int len)
     default: return 0;
     }
 }
+/* a copy of an iterator (the dup slot of the iterator classes): the statements do not say where a copy stands, but they do say the
+   three classes are interchangeable -- so whatever the first class of a run does (how many elements the copy and the original
+   each still yield after k steps), the others must do too; and a copy is a separate object that can be deleted on its own */
+static int iterdup_first_cls = -1;
+static short iterdup_obs[PLAN_MAXOPS][2];
+static void iter_dup_check(spif_iterator_t a, int len, long sel, int opidx, const char *k)
+{
+    int adv = (int)(sel % (len + 1)), c1 = 0, c2 = 0;
+    spif_iterator_t c;
+    for (int q = 0; q < adv; q++) (void)SPIF_ITERATOR_NEXT(a);
+    c = (spif_iterator_t)SPIF_ITERATOR_DUP(a);
+    if (!c) FAILM("iterator-copy", "dup of an iterator returned NULL");
+    if (c == a) FAILM("iterator-copy", "dup of an iterator returned the iterator itself");
+    while (SPIF_ITERATOR_HAS_NEXT(c) && c1 <= len + 1) { (void)SPIF_ITERATOR_NEXT(c); c1++; }
+    while (SPIF_ITERATOR_HAS_NEXT(a) && c2 <= len + 1) { (void)SPIF_ITERATOR_NEXT(a); c2++; }
+    if (c2 != len - adv) FAILM("iterator", "after being copied, an iterator that had yielded %d of %d elements went on to yield %d", adv, len, c2);
+    SPIF_ITERATOR_DEL(c);
+    SPIF_ITERATOR_DEL(a);
+    if (opidx >= 0 && opidx < PLAN_MAXOPS) {
+        if (cur_cls == iterdup_first_cls) { iterdup_obs[opidx][0] = (short)c1; iterdup_obs[opidx][1] = (short)adv; }
+        else if (iterdup_obs[opidx][1] == adv && iterdup_obs[opidx][0] != c1)
+            FAILM("iterator-copy", "%s: the copy of an iterator that had yielded %d of %d elements yields %d more in this class and %d in class %s", k, adv, len, c1, iterdup_obs[opidx][0], cls_name[iterdup_first_cls]);
+    }
+    probe_hit("iterator_copied");
+}
 static void list_pass(const plan_t *p)
 {
     memset(C, 0, sizeof(C));
@@ -357,6 +382,8 @@ static void list_pass(const plan_t *p)
             }
             SPIF_ITERATOR_DEL(it);
             probe_hit("iterator_one_past_end");
+        } else if (!strcmp(k, "iter_dup")) {
+            iter_dup_check(SPIF_LIST_ITERATOR(l), m->len, o->a[1], i, k);
         } else if (!strcmp(k, "iter_partial")) {
             /* two iterators over one list: one is advanced part of the way and deleted (its cursor is a node the list owns),
                the other then walks the whole list */
@@ -539,6 +566,8 @@ static void vector_pass(const plan_t *p)
             if (j < 0) FAILM("remove", "remove returned element #%ld which the ideal multiset does not hold", r);
             m_del(m, j); SPIF_OBJ_DEL(got);
             probe_hit("probe_is_own_element");
+        } else if (!strcmp(k, "iter_dup")) {
+            iter_dup_check(SPIF_VECTOR_ITERATOR(v), m->len, o->a[1], i, k);
         } else if (!strcmp(k, "iter_beyond") || !strcmp(k, "iter_partial")) {
             spif_iterator_t a = SPIF_VECTOR_ITERATOR(v), b = SPIF_VECTOR_ITERATOR(v);
             int adv = k[5] == 'p' ? (m->len ? (int)(o->a[1] % (m->len + 1)) : 0) : m->len, cnt = 0;
@@ -744,6 +773,8 @@ static void map_pass(const plan_t *p)
             for (int q = 0; q < m->len; q++) if (m->val[q] == val) present = 1;
             SPIF_OBJ_DEL(probe);
             if ((got ? 1 : 0) != present) FAILM("has_value", "has_value(%ld) returned %d, ideal dictionary says %d", val, (int)got, present);
+        } else if (!strcmp(k, "iter_dup")) {
+            iter_dup_check(SPIF_MAP_ITERATOR(mp), m->len, o->a[1], i, k);
         } else if (!strcmp(k, "iter_beyond") || !strcmp(k, "iter_partial")) {
             spif_iterator_t a = SPIF_MAP_ITERATOR(mp), b = SPIF_MAP_ITERATOR(mp);
             int adv = k[5] == 'p' ? (m->len ? (int)(o->a[1] % (m->len + 1)) : 0) : m->len, cnt = 0;
@@ -804,8 +835,10 @@ static void exec_kind(const plan_t *p, void (*pass)(const plan_t *))
     long mask = plan_get(p, "classes", 7);
     mixed_classes = (int)plan_get(p, "mixedclass", 0);
     if (mixed_classes) probe_hit("elements_of_two_comparable_classes");
+    iterdup_first_cls = -1;
     for (cur_cls = 0; cur_cls < NCLS; cur_cls++) {
         if (!(mask & (1 << cur_cls))) continue;
+        if (iterdup_first_cls < 0) { iterdup_first_cls = cur_cls; memset(iterdup_obs, -1, sizeof(iterdup_obs)); }
         vnew_count = 0;
         pass(p);
     }
@@ -860,7 +893,8 @@ static void gen_list(plan_t *p, rng_t *r)
         else if (k < 79) plan_op(p, 0, "contains", 2, (long)s, key);
         else if (k < 88) plan_op(p, 0, "reverse", 1, (long)s);
         else if (k < 90) plan_op(p, 0, "iter_beyond", 2, (long)s, (long)rng_below(r, 3));
-        else if (k < 92) plan_op(p, 0, "iter_partial", 2, (long)s, (long)rng_below(r, 1000));
+        else if (k < 91) plan_op(p, 0, "iter_partial", 2, (long)s, (long)rng_below(r, 1000));
+        else if (k < 92) plan_op(p, 0, "iter_dup", 2, (long)s, (long)rng_below(r, 1000));
         else if (k < 96) { if (!ex[1 - s]) { plan_op(p, 0, "dup", 2, (long)s, (long)(1 - s)); ex[1 - s] = 1; len[1 - s] = len[s]; } }
         else { plan_op(p, 0, "del", 1, (long)s); ex[s] = 0; len[s] = 0; }
     }
@@ -885,7 +919,7 @@ static void gen_vector(plan_t *p, rng_t *r)
         if (k < 45) { plan_op(p, 0, "insert", 2, (long)s, key); len[s]++; }
         else if (k < 62) { if (rng_chance(r, 1, 5)) plan_op(p, 0, "remove", 3, (long)s, key, 1L); else plan_op(p, 0, "remove", 2, (long)s, edge); if (len[s]) len[s]--; }
         else if (k < 76) plan_op(p, 0, "find", 2, (long)s, edge);
-        else if (k < 80) plan_op(p, 0, rng_chance(r, 1, 2) ? "iter_beyond" : "iter_partial", 2, (long)s, (long)rng_below(r, 1000));
+        else if (k < 80) plan_op(p, 0, rng_chance(r, 1, 4) ? "iter_dup" : rng_chance(r, 1, 2) ? "iter_beyond" : "iter_partial", 2, (long)s, (long)rng_below(r, 1000));
         else if (k < 90) plan_op(p, 0, "contains", 2, (long)s, edge);
         else if (k < 96) { if (!ex[1 - s]) { plan_op(p, 0, "dup", 2, (long)s, (long)(1 - s)); ex[1 - s] = 1; len[1 - s] = len[s]; } }
         else if (k < 97) plan_op(p, 0, "addrvec", 3, (long)s, (long)rng_range(r, 2, 6), (long)rng_below(r, 720));
@@ -906,7 +940,7 @@ static void gen_map(plan_t *p, rng_t *r)
         if (k < 40) { int pair = rng_chance(r, 1, 6); plan_op(p, 0, pair ? "set_pair" : "set", 3, (long)s, key, !pair && rng_chance(r, 1, 8) ? 2L : !pair && rng_chance(r, 1, 10) ? 3L : (long)rng_chance(r, 1, 2)); }
         else if (k < 62) { if (rng_chance(r, 1, 5)) plan_op(p, 0, "remove", 3, (long)s, key, 1L); else plan_op(p, 0, "remove", 2, (long)s, key); }
         else if (k < 68) plan_op(p, 0, "has_value", 2, (long)s, (long)rng_range(r, -1, 6));
-        else if (k < 70) plan_op(p, 0, rng_chance(r, 1, 2) ? "iter_beyond" : "iter_partial", 2, (long)s, (long)rng_below(r, 1000));
+        else if (k < 70) plan_op(p, 0, rng_chance(r, 1, 4) ? "iter_dup" : rng_chance(r, 1, 2) ? "iter_beyond" : "iter_partial", 2, (long)s, (long)rng_below(r, 1000));
         else if (k < 76) plan_op(p, 0, "keys", 2, (long)s, rng_chance(r, 1, 2) ? (long)rng_range(r, 1, 9) : 0L);
         else if (k < 82) plan_op(p, 0, "values", 2, (long)s, rng_chance(r, 1, 2) ? (long)rng_range(r, 1, 9) : 0L);
         else if (k < 88) plan_op(p, 0, "pairs", 2, (long)s, rng_chance(r, 1, 2) ? (long)rng_range(r, 1, 9) : 0L);
